@@ -265,6 +265,7 @@ P = {
     "C19.b": "the memoization option is forwarded unchanged to the model parser",
     "C19.d": "an explicit whitespace modifier is never dropped (a rule stating its mode pins it)",
     "C01.b": "(shared with C01) repetition modifiers (sep, eolterm) are both installed on assignments and repetitions",
+    "C19.e": "every occurrence of a match or predicate in a grammar becomes an expression object of its own (by evaluation of visit_re_match / visit_expression called twice on one visitor): per-occurrence state - suppression, rule name, memoization table - is not shared",
     "C19.c": "no process-wide cache shares an object built for one memoization setting with another",
   },
   declined="equality of models / error positions in general",
